@@ -5,7 +5,7 @@ import clicommon as CLI
 
 RULE = ("exhaustive: header 0..3 x limit in {none, 0..rows+1} x tables of 0..5 rows with a single bad row at every "
         "position (including inside the header) or none x {rows() with on_error yield, validate()}; one Choice field, "
-        "optionally an IsUnique check with the bad row being a duplicate instead; plus random CIDs/tables with random "
+        "optionally an IsUnique check with the bad row being a duplicate instead; header rows that are blank lines; plus random CIDs/tables with random "
         "header and limit. For validate() cases the command line is run with --until N on the same files and must "
         "agree with the API; clean tables also with a container fault (unterminated quote) behind the last row. Non-trivial: the table has a bad row. Distinct = distinct (CID, table, limit, api).")
 EXHAUSTIVE = {"quick": True, "thorough": True}
@@ -37,6 +37,12 @@ def gen_inputs(tier, rnd):
                             if api == "rows" and nrows >= 2 and (nrows + header + (limit or 0)) % 3 == 0:
                                 # the same Reader object reads its data a second time: header and limit count from the start again
                                 yield {"spec": base_spec(header, unique), "table": table, "mode": "yield", "limit": limit, "api": api, "prepass": True}
+                            if api == "rows" and header >= 1 and nrows > header and (bad is None or bad >= header) and (limit is None or limit >= header):
+                                # a header row may be anything, also a blank line (a row without any items)
+                                for k in range(header):
+                                    blank = [list(r) for r in table]
+                                    blank[k] = []
+                                    yield {"spec": base_spec(header, unique), "table": blank, "mode": "yield", "limit": limit, "api": api}
                             if bad is None and not unique:
                                 # the container breaks behind the last row (unterminated quote): the validate-only API must
                                 # not even notice when it stops before, the row API always does
